@@ -629,3 +629,34 @@ func (g *Grammar) RuleNamesSorted() []string {
 	sort.Strings(out)
 	return out
 }
+
+// NonNullable: every derivation of the rule contains a terminal, directly or through a child rule that is itself
+// non-nullable (whitespace and EOF do not count: Derivations drops them).
+func (g *Grammar) NonNullable(rule string) bool {
+	return g.nonNullable(rule, map[string]bool{})
+}
+
+func (g *Grammar) nonNullable(rule string, busy map[string]bool) bool {
+	if busy[rule] {
+		return false
+	}
+	busy[rule] = true
+	defer delete(busy, rule)
+	ds := g.Derivations(rule)
+	if len(ds) == 0 {
+		return false
+	}
+	for _, d := range ds {
+		ok := false
+		for _, s := range d {
+			if !strings.HasPrefix(s, "R:") || g.nonNullable(s[2:], busy) {
+				ok = true
+				break
+			}
+		}
+		if !ok {
+			return false
+		}
+	}
+	return true
+}
